@@ -415,7 +415,12 @@ class FIXNewOrderSingle:
             self.leaves_qty = 0
 
         if new_status is not None:
-            self.status = new_status
+            self.status = FOrdStatus(new_status)
+            if self.orig_clord_id:
+                # Request was rejected: the order is still live under its previous
+                #   ClOrdID, and next cancel/replace request must refer to it
+                self.clord_id = self.orig_clord_id
+                self.orig_clord_id = None
             return True
         else:
             return False
